@@ -390,7 +390,7 @@ func RunC03(ctx *core.Ctx) {
 				if k == 2 {
 					n = 2
 				}
-				prof := &gen.Profile{NullProb: []float64{0.1, 0.5, 0.9}[r.Intn(3)], MaxLen: 1 + r.Intn(4), SmallDomain: r.Intn(3) == 0}
+				prof := &gen.Profile{NullProb: []float64{0.1, 0.5, 0.9}[r.Intn(3)], MaxLen: 1 + r.Intn(4), SmallDomain: r.Intn(3) == 0, TagNulls: true}
 				if r.Intn(2) == 0 {
 					prof.RunLen = 70
 				}
@@ -419,7 +419,7 @@ func RunC03(ctx *core.Ctx) {
 		for k := 0; k < ctx.Scale(40, 400); k++ {
 			n := 1 + r.Intn(6)
 			rows := e.NewRows(n)
-			gen.FillRows(r, rows, &gen.Profile{NullProb: 0.3, MaxLen: 3})
+			gen.FillRows(r, rows, &gen.Profile{NullProb: 0.3, MaxLen: 3, TagNulls: true})
 			ctx.Case(fmt.Sprintf("%s/%d/%v", e.Name, k, rows.Interface()), true)
 			// reference streams, map entries in key order
 			var all gen.Shredder
@@ -428,7 +428,9 @@ func RunC03(ctx *core.Ctx) {
 				valTexts = append(valTexts, all.ShredRow(e.Schema, rows.Index(i)))
 			}
 			back, err := e.Reconstruct(rows.Interface())
-			if err != nil {
+			if err != nil && e.OpenReadBack != "" {
+				ctx.Observe("open-finding "+e.OpenReadBack+" api=reconstruct "+errClass(err), "Schema.Reconstruct(Deconstruct(v)) failed: "+err.Error(), map[string]any{"type": e.Name, "rows": fmt.Sprintf("%+v", rows.Interface())})
+			} else if err != nil {
 				ctx.Fail("L1", "reconstruct-error "+mapTag+" "+errClass(err), "Schema.Reconstruct(Deconstruct(v)) failed: "+err.Error(), map[string]any{"type": e.Name, "rows": fmt.Sprintf("%+v", rows.Interface())})
 			} else if ok, diff := gen.CanonEqualOpt(rows, reflect.ValueOf(back), e.Name); !ok {
 				ctx.Fail("L1", "reconstruct-differs "+mapTag, "Schema.Reconstruct(Deconstruct(v)) differs from v: "+diff, map[string]any{"type": e.Name, "rows": fmt.Sprintf("%+v", rows.Interface()), "diff": diff})
@@ -453,7 +455,9 @@ func RunC03(ctx *core.Ctx) {
 						map[string]any{"type": e.Name, "path": p.name, "schema": gen.NodeText(e.Schema), "rows": valTexts, "go_rows": fmt.Sprintf("%+v", rows.Interface()), "column": c, "row": i})
 				}
 				got, err := e.ReadAll(bytes.NewReader(file), int64(len(file)))
-				if err != nil {
+				if err != nil && e.OpenReadBack != "" {
+					ctx.Observe("open-finding "+e.OpenReadBack+" api=read "+errClass(err), "Read[T] of the file written by path "+p.name+" failed: "+err.Error(), map[string]any{"type": e.Name, "path": p.name, "rows": fmt.Sprintf("%+v", rows.Interface())})
+				} else if err != nil {
 					ctx.Fail("L1", "readback-error "+mapTag+" path="+p.name+" "+errClass(err), err.Error(), map[string]any{"type": e.Name, "rows": fmt.Sprintf("%+v", rows.Interface())})
 				} else if ok, diff := gen.CanonEqual(rows, reflect.ValueOf(got), e.Name); !ok {
 					ctx.Fail("L1", "value-mismatch "+mapTag+" path="+p.name, "rows read back differ: "+diff, map[string]any{"type": e.Name, "rows": fmt.Sprintf("%+v", rows.Interface()), "diff": diff})
